@@ -348,7 +348,7 @@ func c04Concurrent(w *fw.Worker, i int, r *fw.Rand) {
 					return
 				default:
 				}
-				if recorded < 25 && k%3 == 0 {
+				if recorded < 12 && k%3 == 0 {
 					ser, cfg := e.Read(10 + rd)
 					recorded++
 					c04Validity(w, i, e, cfg, ser, true, "ViewVersion")
@@ -370,7 +370,10 @@ func c04Concurrent(w *fw.Worker, i int, r *fw.Rand) {
 	}
 	// reporters: one per watching source
 	var rwg sync.WaitGroup
-	nops := r.Range(4, 12)
+	var mu sync.Mutex
+	var leftovers []func(ret int64)
+	// keep histories small: linearizability checking is exponential in the number of overlapping state-changing operations
+	nops := r.Range(3, 24/o.NSrc)
 	for s := 0; s < o.NSrc; s++ {
 		if e.Srcs[s] == nil {
 			continue
@@ -379,10 +382,45 @@ func c04Concurrent(w *fw.Worker, i int, r *fw.Rand) {
 		rwg.Add(1)
 		go func(s int, rr *fw.Rand) {
 			defer rwg.Done()
+			type pend struct {
+				in   conc.In
+				call int64
+				out  conc.Out
+			}
+			var pending []pend
+			flush := func(ret int64) {
+				for _, p := range pending {
+					e.H.AddBounded(s, p.in, p.call, p.out, ret)
+				}
+				pending = nil
+			}
+			defer func() {
+				mu.Lock()
+				leftovers = append(leftovers, func(ret int64) { flush(ret) })
+				mu.Unlock()
+			}()
 			for k := 0; k < nops; k++ {
 				l := e.RandLayer(rr, 30, 6)
 				blocking := rr.Chance(65)
-				res, _ := e.Report(ctx, s, s, l, blocking)
+				var res int
+				if !blocking {
+					// a non-blocking report's effect is bounded by this goroutine's next blocking report
+					call := e.S.Tick()
+					err := e.Srcs[s].Report(ctx, l, false)
+					rs, es := conc.ClassifyReportErr(err, false)
+					res = rs
+					in := conc.In{Kind: conc.OpReport, Src: s, Layer: l}
+					if rs == conc.ResSubmittedUnk {
+						pending = append(pending, pend{in, call, conc.Out{Res: rs, Err: es}})
+					} else {
+						e.H.Add(s, in, call, conc.Out{Res: rs, Err: es}, e.S.Tick())
+					}
+				} else {
+					res, _ = e.Report(ctx, s, s, l, true)
+					if res == conc.ResNil || res == conc.ResRejected {
+						flush(e.S.Tick())
+					}
+				}
 				sigMu.Lock()
 				fmt.Fprintf(&sig, "%d", res)
 				sigMu.Unlock()
@@ -407,6 +445,11 @@ func c04Concurrent(w *fw.Worker, i int, r *fw.Rand) {
 	last.Set[2] = true
 	fenceSrc := o.NSrc - 1
 	e.Report(ctx, 0, fenceSrc, last, true)
+	// every non-blocking report was received by the monitor before the fence was: bounded by the fence's return
+	fenceRet := e.S.Tick()
+	for _, f := range leftovers {
+		f(fenceRet)
+	}
 	e.Read(0)
 	close(stop)
 	wg.Wait()
@@ -420,14 +463,20 @@ func c04Concurrent(w *fw.Worker, i int, r *fw.Rand) {
 		}
 	}
 	c04VerifyLog(w, i, e)
-	switch e.H.Check(e.Model, 20*time.Second) {
+	switch e.H.Check(e.Model, 8*time.Second) {
 	case "ok":
 		w.Count("linearizable_histories", 1)
 		w.Count("history_ops", int64(e.H.Len()))
 	case "illegal":
 		w.Violation(i, "history-not-linearizable", "the report/read history has no linearization under the sequential model (rejected update changed the view, a nil blocking report not visible, or a config/serial pair that never existed)", e.H.Describe())
 	default:
-		w.Inconclusive(i, "porcupine timeout")
+		w.Inconclusive(i, fmt.Sprintf("porcupine timeout (%d ops)", e.H.Len()))
+		w.Note("timed-out history: " + strings.Join(e.H.Describe(), " || "))
+		if w.Verbose {
+			for _, l := range e.H.Describe() {
+				fmt.Println(l)
+			}
+		}
 	}
 	if rejected.Load() > 0 && installed.Load() > 0 {
 		w.Distinct(sig.String())
